@@ -55,6 +55,15 @@ def rust_half(ctx, r: Rust):
 
 
 def python_half(ctx, py: PyRepo):
+    # a judgement written as a loop over an explicit work list is read as the recursion it computes (core/pynormal.py); that reading
+    # is exact unless the loop returns the final answer early - which answers for every node still on the list
+    for mod, cname, meth, node in getattr(py, 'early_accepts', []):
+        if meth == 'evar_is_free':
+            ctx.ob('sound-arm', f'python/evar_is_free/{cname}@early-accept', False,
+                   f'{cname}.evar_is_free walks the pattern with an explicit work list and returns "fresh" from inside the loop '
+                   f'(line {getattr(node, "lineno", "?")}): that answers for the whole pattern although sibling subpatterns are still on the '
+                   f'list - a free occurrence waiting there is never inspected (inside a recursion the same `return` would only answer for '
+                   f'the subpattern; here it has to be `continue`)', py.where(mod, node))
     classes = pypattern.pattern_classes(py)
     names = [c.name for c in classes]
     for c in classes:
